@@ -21,6 +21,14 @@ func zzText(i int, pfx string) string {
 		return "S1F2 H<->E Nm" + d + "\n."
 	case 4: // terminator directly behind '>'
 		return "S9F9 W\n<BOOLEAN T>."
+	case 7: // more than 32 variables, and names the other texts use too
+		t := "S7F1 W\n<L x y s"
+		for i := 0; i < 36; i++ {
+			t += " q" + rt.N("", i)[1:]
+		}
+		return t + " <U1 " + d + ">>\n."
+	case 8: // an explicitly, wrongly numbered ellipsis (warning)
+		return "S8F1\n<L <U1 " + d + "> ...[5] <L x ...[7]>>\n."
 	case 5: // two messages in one text, second without direction on the same line as its terminator
 		return "S1F1\n<A \"" + d + "\">\n.\nS1F2 ."
 	}
